@@ -178,7 +178,18 @@ def run_determinism(ctx, prop, tier, seed, binp, workdir):
     race = ctx["build_race"]()
     n, depth = (40, 60) if tier == "quick" else (200, 150)
     obs = os.path.join(workdir, "det.ndjson")
-    text, rc = det_run(ctx, race, ["determinism", "-n", str(n), "-depth", str(depth), "-out", obs], seed)
+    # TLC-enumerated transfer histories (faults, simulated and discarded transactions) are replicated too
+    cfg = "MC_XferPaths.cfg" if tier == "quick" else "MC_XferPaths_T.cfg"
+    outp, rc0, scratch = ctx["run_tlc"]("MC_XferPaths", cfg, workdir, 1500, os.cpu_count() or 8)
+    paths = os.path.join(workdir, "xferpaths.ndjson")
+    ttext, npaths = ctx["split"](outp, paths)
+    shutil.rmtree(scratch, ignore_errors=True)
+    if rc0 != 0 or "No error has been found" not in ttext or npaths == 0:
+        raise ctx["Machinery"]("TLC did not verify MC_XferPaths:\n" + ttext[-2000:])
+    if tier == "quick":   # a deterministic sample of the paths keeps the quick tier short
+        lines = open(paths).read().splitlines()
+        open(paths, "w").write("\n".join(lines[::7]) + "\n")
+    text, rc = det_run(ctx, race, ["determinism", "-n", str(n), "-depth", str(depth), "-in", paths, "-out", obs], seed)
     violations = []
     if "DATA RACE" in text:
         rp = write_replay(ctx, prop, seed, dict(special="det", signature="C18:data-race", first=1, n=n, depth=depth, report=text[-4000:]))
@@ -195,7 +206,7 @@ def run_determinism(ctx, prop, tier, seed, binp, workdir):
         for sig in v["fails"]:
             bysig.setdefault(sig, v["id"])
     for sig, rid in sorted(bysig.items()):
-        rp = write_replay(ctx, prop, seed, dict(special="det", signature=sig, first=rid, n=2, depth=depth, replicas=recs[rid]["replicas"]))
+        rp = write_replay(ctx, prop, seed, dict(special="det", signature=sig, first=rid, n=2, depth=depth, replicas=recs[rid]["replicas"], tier=tier))
         violations.append(dict(signature=sig, replay=rp))     # irreproducibility IS the violation: two recorded runs differ
     steps = sum(r["steps"] for r in recs.values())
     nrep = len(next(iter(recs.values()))["replicas"]) if recs else 0
@@ -207,6 +218,10 @@ def run_determinism(ctx, prop, tier, seed, binp, workdir):
 
 
 def replay_det(rp, binp, workdir, ctx):
+    if rp.get("first", 0) > 1_000_000 or rp["signature"] == "C18:data-race":
+        # a TLC-given history (or a race anywhere): run the flow again and look for the signature
+        r = run_determinism(ctx, rp["property"], rp.get("tier", "quick"), rp["seed"], binp, workdir)
+        return any(v["signature"] == rp["signature"] for v in r["violations"])
     race = ctx["build_race"]()
     obs = os.path.join(workdir, "rdet.ndjson")
     text, rc = det_run(ctx, race, ["determinism", "-first", str(rp["first"]), "-n", str(rp["n"]), "-depth", str(rp["depth"]), "-out", obs], rp["seed"])
